@@ -1165,19 +1165,58 @@ pub fn suite_cost(ctx: &mut Ctx) {
     if ctx.take() {
         structured_key_cases(ctx);
     }
-    for i in 0..count {
+    // adversarial repetition shapes with a tiny D (near-identical inputs must be diffed in near-linear work):
+    // braided (every value twice, two positions apart, first item differs), a long run of one value with
+    // mismatching ends, two interleaved runs, a run next to a unique tail
+    let mut adversarial: Vec<(Vec<u32>, Vec<u32>)> = vec![];
+    for k in [10u32, 100, 600] {
+        let braid = |first: u32| -> Vec<u32> {
+            let mut v = vec![first, 1];
+            for i in 2..=k {
+                v.push(i);
+                v.push(i - 1);
+            }
+            v
+        };
+        adversarial.push((braid(1_000_000), braid(2_000_000)));
+        adversarial.push((braid(1_000_000), braid(1_000_000)));
+        let n = (k * 2) as usize;
+        let mut o = vec![1u32; n];
+        o.push(2);
+        let mut nn = vec![3u32];
+        nn.extend(std::iter::repeat(1u32).take(n + 1));
+        adversarial.push((o.clone(), nn.clone()));
+        adversarial.push((nn, o));
+        let inter: Vec<u32> = (0..n as u32).map(|i| i % 2).collect();
+        let mut inter2 = inter.clone();
+        inter2.insert(n / 2, 7);
+        adversarial.push((inter, inter2));
+        let mut runtail: Vec<u32> = vec![5; n];
+        runtail.extend((0..n as u32).map(|i| 100 + i));
+        let mut runtail2 = runtail.clone();
+        runtail2.remove(n / 3);
+        runtail2.push(9);
+        adversarial.push((runtail, runtail2));
+    }
+    let nadv = adversarial.len();
+    for i in 0..count + nadv {
         if !ctx.take() {
             continue;
         }
         let mut rng = Rng::new(ctx.seed ^ 0xc057 ^ (i as u64).wrapping_mul(0x9E3779B97F4A7C15));
-        let fam = FAMILIES[i % FAMILIES.len()];
-        let size = 1 + rng.below(maxsz);
-        // unrelated / small-alphabet inputs have D ~ N+M: keep them smaller (quadratic work is expected)
-        let size = match fam {
-            gen::Family::Unrelated | gen::Family::SmallAlphabet | gen::Family::HeavyRepeats => size.min(300),
-            _ => size,
+        let (old, new) = if i >= count {
+            ctx.count("cost.adversarial_repetition_cases");
+            adversarial[i - count].clone()
+        } else {
+            let fam = FAMILIES[i % FAMILIES.len()];
+            let size = 1 + rng.below(maxsz);
+            // unrelated / small-alphabet inputs have D ~ N+M: keep them smaller (quadratic work is expected)
+            let size = match fam {
+                gen::Family::Unrelated | gen::Family::SmallAlphabet | gen::Family::HeavyRepeats => size.min(300),
+                _ => size,
+            };
+            gen::gen_pair(&mut rng, fam, size)
         };
-        let (old, new) = gen::gen_pair(&mut rng, fam, size);
         // variants: full ranges; the same inputs embedded behind unrelated prefixes of different
         // lengths (sub-ranges with large non-zero starts); items that hash like short strings
         let variant = i % 3;
